@@ -153,6 +153,11 @@ func sIte(c, a, b *Sym) *Sym {
 	if a.String() == b.String() {
 		return a
 	}
+	// canonical form: no negated condition (ite(!c, a, b) = ite(c, b, a)), so that opaque terms built over a conditional
+	// argument get the same name however the source wrote the test
+	if c.Op == "not" && len(c.Kids) == 1 {
+		c, a, b = c.Kids[0], b, a
+	}
 	k := a.Kind
 	if k == "" {
 		k = b.Kind
